@@ -18,7 +18,7 @@ use crate::util::*;
 pub const PROP: Prop = Prop {
     id: "C05",
     level: "exploration",
-    rule: "(rounds 6-7: every literal is also read after other tokens of one parse - after a sign, after a string with an escape, between sign-led symbols, from a stream after a symbol and a string, inside a vector - and integer literals of a byte's value as elements of #u8( and #vu8( byte vectors) (decimal literals also take their digit strings from the integer boundaries - 2^k and 10^k with small offsets, the 64-bit limits and their tenths, 2^64+d - with up to two more digits and the decimal point at every position) literals generated from the grammar [#b|#o|#d|#x][+|-]0*digits (all four radixes, 64-bit boundaries 2^k, 2^k+-1, 10^k+-1 up to 2^70, random digit strings up to 400 digits, both hex cases) and [+|-]digits[.digits][(e|E)[+|-]digits] (1-400 digits, exponents in [-400,400] and absurd ones, exact halfway cases and their neighbours built with the bignum, subnormals, overflow band), plus every generated double and integer through the printer; parsed under the default options and under options with leading-digit symbols; oracle = exact rational arithmetic (M_big): exact integer in range, correctly rounded where the statement demands it, otherwise within 2^-50 relative (or one subnormal unit), out-of-range error at or above 2^1024, never inf/NaN; non-trivial = not a plain unsigned decimal of at most 9 digits; distinct by literal text and option variant",
+    rule: "(round 9: exponents with 7-40 leading zeros) (rounds 6-7: every literal is also read after other tokens of one parse - after a sign, after a string with an escape, between sign-led symbols, from a stream after a symbol and a string, inside a vector - and integer literals of a byte's value as elements of #u8( and #vu8( byte vectors) (decimal literals also take their digit strings from the integer boundaries - 2^k and 10^k with small offsets, the 64-bit limits and their tenths, 2^64+d - with up to two more digits and the decimal point at every position) literals generated from the grammar [#b|#o|#d|#x][+|-]0*digits (all four radixes, 64-bit boundaries 2^k, 2^k+-1, 10^k+-1 up to 2^70, random digit strings up to 400 digits, both hex cases) and [+|-]digits[.digits][(e|E)[+|-]digits] (1-400 digits, exponents in [-400,400] and absurd ones, exact halfway cases and their neighbours built with the bignum, subnormals, overflow band), plus every generated double and integer through the printer; parsed under the default options and under options with leading-digit symbols; oracle = exact rational arithmetic (M_big): exact integer in range, correctly rounded where the statement demands it, otherwise within 2^-50 relative (or one subnormal unit), out-of-range error at or above 2^1024, never inf/NaN; non-trivial = not a plain unsigned decimal of at most 9 digits; distinct by literal text and option variant",
     assumptions: &[
         "correct rounding is demanded only when the digits fit 2^53 and |exponent| <= 22 under the written, effective and scientific reading of 'exponent' (both builds), and additionally for <= 19 significant digits in the noff build",
         "in the band where x*(1+2^-50) crosses the overflow threshold either a finite in-tolerance result or the out-of-range error is accepted",
